@@ -94,11 +94,13 @@ type repairFaults struct {
 	removedEntries []int
 	partial        string // field index damaged alone
 	schemaRemoved  bool
+	live           bool // the handle stayed open while the directory was damaged
+	dirRemoved     bool // the whole collection directory disappeared
 }
 
 func (f *repairFaults) String() string {
-	return fmt.Sprintf("removed files of lids %v, added files for lids %v, removed index entries of lids %v, partial=%q, schema removed=%v",
-		f.removedFiles, f.addedFiles, f.removedEntries, f.partial, f.schemaRemoved)
+	return fmt.Sprintf("removed files of lids %v, added files for lids %v, removed index entries of lids %v, partial=%q, schema removed=%v, directory removed=%v, handle kept open=%v",
+		f.removedFiles, f.addedFiles, f.removedEntries, f.partial, f.schemaRemoved, f.dirRemoved, f.live)
 }
 
 func (f *repairFaults) sig() string {
@@ -117,6 +119,12 @@ func (f *repairFaults) sig() string {
 	}
 	if f.schemaRemoved {
 		p = append(p, "rmschema")
+	}
+	if f.dirRemoved {
+		p = append(p, "rmdir")
+	}
+	if f.live {
+		p = append(p, "live")
 	}
 	if len(p) == 0 {
 		return "nofault"
@@ -164,7 +172,7 @@ func RunRepair(p Params) *Result {
 			}
 		}
 		if faults != nil {
-			res.Ops = append(res.Ops, "faults applied to the closed directory: "+faults.String())
+			res.Ops = append(res.Ops, "faults applied to the directory: "+faults.String())
 		}
 	}
 	if faults != nil {
@@ -176,12 +184,20 @@ func RunRepair(p Params) *Result {
 
 func (s *Seq) repairScenario(r *simrt.Rand, extra map[string]int) *repairFaults {
 	s.curOp = &Op{K: "repair"}
-	if err := s.db.Close(); err != nil {
+	f := &repairFaults{}
+	// a third of the runs damage the directory under a live handle (files only: its
+	// index is in memory) and ask Control, the others damage the closed directory
+	// and look at the first load
+	f.live = r.Fork(77).Chance(1, 3)
+	if f.live {
+		if err := s.db.FlushAllAndCommit(rec0()); err != nil {
+			s.fail("repair", "close-failed", "FlushAllAndCommit failed: %v", err)
+		}
+	} else if err := s.db.Close(); err != nil {
 		s.fail("repair", "close-failed", "Close failed: %v", err)
 	}
 	fsys := s.W.FS
 	dir := CollDir(s.Root, s.Cfg.Lower)
-	f := &repairFaults{}
 	lids := s.M.Lids()
 	raw, ok := fsys.RawRead(dir + "/schema.json")
 	if !ok {
@@ -202,6 +218,9 @@ func (s *Seq) repairScenario(r *simrt.Rand, extra map[string]int) *repairFaults 
 		files[s.M.UUID[l]] = true
 	}
 	mode := r.Intn(8)
+	if f.live {
+		mode = []int{0, 1, 2, 1, 2, 8, 8, 5}[r.Intn(8)] // 8: the whole directory disappears
+	}
 	// 0: no fault (no false positive), 1: remove files, 2: add files, 3: remove entries,
 	// 4: remove schema, 5/6: mixture, 7: partial removal from one field index
 	pick := func(n int) []int {
@@ -292,7 +311,17 @@ func (s *Seq) repairScenario(r *simrt.Rand, extra map[string]int) *repairFaults 
 		b, _ := json.Marshal(doc)
 		fsys.RawWrite(dir+"/schema.json", b)
 	}
-	if mode == 4 || (mode == 5 && r.Chance(1, 4)) {
+	if mode == 8 {
+		ents, _ := fsys.RawList(dir)
+		for _, e := range ents {
+			fsys.RawRemove(dir + "/" + e.Name)
+		}
+		fsys.RawRemove(dir)
+		files = map[string]bool{}
+		f.dirRemoved = true
+		s.stat("fault:rm-collection-dir")
+	}
+	if !f.live && (mode == 4 || (mode == 5 && r.Chance(1, 4))) {
 		fsys.RawRemove(dir + "/schema.json")
 		f.schemaRemoved = true
 		indexed = map[string]bool{}
@@ -307,10 +336,36 @@ func (s *Seq) repairScenario(r *simrt.Rand, extra map[string]int) *repairFaults 
 	}
 	sig := f.sig()
 	filesModel, ferr := ModelFromFiles(fsys, s.Cfg, s.Root)
+	if f.dirRemoved {
+		filesModel, ferr = model.New(s.Cfg.Cons), nil
+	}
 	if ferr != nil {
 		s.fail("repair", "harness", "cannot decode the directory: %v", ferr)
 	}
 	before := dirObjectBytes(fsys, dir)
+	if f.live {
+		cerr := s.db.Control()
+		if !diverged {
+			if cerr != nil {
+				s.fail("control", "false-positive:"+sig, "faults %s leave index and files in agreement, yet Control on the live handle reports %v", f.String(), cerr)
+			}
+			if v := s.subCheck(s.db, filesModel, r.Uint64(), 4, "healthy-directory", true); v != nil {
+				s.fail("repair", "healthy-directory-wrong:"+v.Sig, "no divergence was introduced (%s), but %s", f.String(), v.Msg)
+			}
+			s.stat("probe:no-divergence-no-report")
+			s.db.Close()
+			return f
+		}
+		if cerr == nil {
+			s.fail("repair", "divergence-unreported-by-control:"+sig, "%s: Control on the live handle reports nothing", f.String())
+		}
+		if !sod.IsIndexCorrupted(cerr) {
+			s.fail("repair", "divergence-wrong-error:"+sig, "%s: Control fails with %v, not with index corruption", f.String(), cerr)
+		}
+		s.stat("probe:divergence-reported-live")
+		s.repairAndVerify(s.db, filesModel, before, dir, f.String(), sig)
+		return f
+	}
 	db := sod.Open(s.Root)
 	_, lerr := db.Schema(rec0())
 	if f.schemaRemoved {
